@@ -18,7 +18,7 @@ FLOOR_BASE = {"quick": 300, "thorough": 10000}    # case counts the floors below
 def FLOORS(tier):
     q = tier == "quick"
     f = {"result-contract-checks": 2500 if q else 10 ** 5, "empty-or-constant-model": 60, "matrix-with-gaps": 100,
-         "with-initial_state": 600, "num_anneals<=0": 300, "hook-dE-checks": 10 ** 5}
+         "with-initial_state": 600, "num_anneals<=0": 300, "hook-dE-checks": 10 ** 5, "schedule:one-shot-iterator": 30}
     for fn in A.FUNCS:
         for t in A.ACCEPT[fn]:
             f["cell:%s:%s" % (fn, t)] = 25 if q else 1000
@@ -28,11 +28,14 @@ def FLOORS(tier):
 
 
 def case(ctx, rng, idx):
-    cfg = A.make_config(rng)
+    cfg = A.make_config(rng, one_shot_ok=True)
     fn = getattr(L.sim, cfg["fn"])
+    callkw = {k: v for k, v in cfg["kw"].items() if not k.startswith("_")}
+    if "_schedule_values" in cfg["kw"]:
+        ctx.cat("schedule:one-shot-iterator")
     w = A.describe(cfg)
     snap = dict(cfg["model"])
-    ok, res = ctx.call(cfg["fn"], fn, cfg["model"], _w=w, **cfg["kw"])
+    ok, res = ctx.call(cfg["fn"], fn, cfg["model"], _w=w, **callkw)
     if not ok:
         return
     ctx.cat("cell:%s:%s" % (cfg["fn"], cfg["type"]))
